@@ -81,6 +81,19 @@ pub fn configs_c08(tier: Tier) -> Vec<Box<dyn Config>> {
         let l = format!("{}-allocation-size", h.label());
         v.push(Box::new(BfsConfig::new(l, h, lim(tier))));
     }
+    // scripted full / tombstone-saturated / all-tombstone tables (capacity() == 0 with an allocation)
+    {
+        let mut c = MapCfg::new(Plan::Zero, if sse2 { 30 } else { 16 });
+        c.max_buckets = if sse2 { 64 } else { 32 };
+        c.alphabet = Alphabet::core();
+        c.probes = p.clone();
+        let label = format!("{}-tracked-capacity-seeded", c.label());
+        let mut l = lim(tier);
+        l.max_depth = Some(if q { 0 } else { 1 });
+        let mut b = BfsConfig::new(label, MapHarness::<TKey, TVal>::new(c), l);
+        b.seeds = super::c01::seeds_for(super::width());
+        v.push(Box::new(b));
+    }
     if sse2 {
         v.push(probe_cfg::<TKey, TVal>(Plan::Zero, if q { 13 } else { 16 }, p.clone(), tier, "capacity"));
         v.push(probe_cfg::<PKey, PVal>(Plan::Seq, if q { 5 } else { 7 }, p.clone(), tier, "capacity"));
@@ -110,6 +123,29 @@ pub fn configs_c12(tier: Tier) -> Vec<Box<dyn Config>> {
         let mut b = BfsConfig::new(label, MapHarness::<TKey, TVal>::new(c), l);
         b.seeds = super::c01::seeds_for(super::width()).into_iter().step_by(if q { 3 } else { 1 }).collect();
         v.push(Box::new(b));
+    }
+    // every collection type x element layouts (zero-sized, odd sizes, over-aligned, with drop glue)
+    {
+        use crate::laysut::*;
+        fn tr<L: Lay>(v: &mut Vec<Box<dyn Config>>, coll: Coll, u: u8, tier: Tier) {
+            let mut h = LayHarness::<L>::new(coll, Plan::Zero, u, false);
+            h.try_reserve_probes = true;
+            let l = format!("{}-try_reserve", h.label());
+            v.push(Box::new(BfsConfig::new(l, h, Limits { max_wall_s: if tier == Tier::Quick { 30.0 } else { 600.0 }, ..Default::default() })));
+        }
+        let u = if q { 4 } else { 8 };
+        for coll in [Coll::Set, Coll::Map, Coll::Table] {
+            tr::<Z0>(&mut v, coll, u, tier);
+            tr::<S1>(&mut v, coll, u, tier);
+            tr::<D8>(&mut v, coll, u, tier);
+            if !q {
+                tr::<S3>(&mut v, coll, u, tier);
+                tr::<S24>(&mut v, coll, u, tier);
+                tr::<Z16>(&mut v, coll, u, tier);
+            }
+        }
+        tr::<A64>(&mut v, Coll::Set, u, tier);
+        tr::<S3>(&mut v, Coll::Table, u, tier);
     }
     if sse2 {
         v.push(probe_cfg::<TKey, TVal>(Plan::Zero, if q { 11 } else { 15 }, p.clone(), tier, "try_reserve"));
